@@ -1,4 +1,4 @@
-CONSTANTS Home = "pos" TabNo = "fresh" Chart = "cached" Perm = TRUE Depth = 3 MaxEdits = 2 Shapes = "all" Wide = FALSE EmitReplay = FALSE
+CONSTANTS Home = "pos" TabNo = "fresh" Chart = "cached" Perm = FALSE Depth = 3 MaxEdits = 2 Shapes = "all" Wide = FALSE EmitReplay = FALSE
 SPECIFICATION MCSpec
 VIEW StateView
 INVARIANTS LazyEqEager SaveProps SaveWorks
